@@ -104,4 +104,12 @@ func init() {
 	for _, id := range []string{"C03", "C09", "C11"} {
 		props[id].Harnesses = append(props[id].Harnesses, sso...)
 	}
+	rollover := HarnessSpec{Name: "VH_C02_store_rollover", Replay: "native", Unwind: 400}
+	logout := HarnessSpec{Name: "VH_C10_logout_post", Replay: "native", Unwind: 400}
+	for _, id := range []string{"C01", "C02", "C10"} {
+		props[id].Harnesses = append(props[id].Harnesses, rollover)
+	}
+	for _, id := range []string{"C02", "C04", "C09", "C10"} {
+		props[id].Harnesses = append(props[id].Harnesses, logout)
+	}
 }
